@@ -51,8 +51,36 @@ func synthModels(r *rand.Rand) []synthModel {
 		many.Nodes = append(many.Nodes, mNode{Op: "Add", Attrs: []Attr{}, Ins: []string{prev, w}, Outs: []string{o}})
 		prev = o
 	}
+	// two Constant nodes without node names and with different values
+	constT := func(base int) AbsTensor {
+		t := AbsTensor{Dt: "f32", Shape: []int{6000}, Data: make([]Elem, 6000), Enc: "raw"}
+		for i := range t.Data {
+			t.Data[i] = IntElem(int64(base + i%13))
+		}
+		return t
+	}
 	return []synthModel{
 		{"many_weights", many},
+		{"two_unnamed_constants", mModel{Unnamed: true,
+			Nodes: []mNode{
+				{Op: "Constant", Attrs: []Attr{{"value", "t", rawJ(constT(100))}}, Ins: []string{}, Outs: []string{"ca"}},
+				{Op: "Add", Attrs: []Attr{}, Ins: []string{"x", "ca"}, Outs: []string{"ya"}},
+				{Op: "Constant", Attrs: []Attr{{"value", "t", rawJ(constT(-500))}}, Ins: []string{}, Outs: []string{"cb"}},
+				{Op: "Add", Attrs: []Attr{}, Ins: []string{"x", "cb"}, Outs: []string{"yb"}},
+				{Op: "Constant", Attrs: []Attr{{"value", "t", rawJ(AbsTensor{Dt: "f32", Shape: []int{1}, Data: []Elem{IntElem(7)}})}}, Ins: []string{}, Outs: []string{"cc"}},
+				{Op: "Mul", Attrs: []Attr{}, Ins: []string{"x", "cc"}, Outs: []string{"yc"}}},
+			Inputs: []mInput{dynInput("x", 6000)}, Outputs: []string{"ya", "yb", "yc"}, Inits: []mInit{{"unused", fTensor(r, []int{2}, 0, 1)}}}},
+		// views of weights: a transposed matrix weight, a permuted 3-D weight, a reshaped one - the weight objects are shared by all Runs
+		{"weight_views", mModel{
+			Nodes: []mNode{
+				{Op: "Transpose", Attrs: []Attr{aIs("perm", []int{1, 0})}, Ins: []string{"vw"}, Outs: []string{"wt"}},
+				{Op: "MatMul", Attrs: []Attr{}, Ins: []string{"x", "wt"}, Outs: []string{"y"}},
+				{Op: "Transpose", Attrs: []Attr{aIs("perm", []int{2, 0, 1})}, Ins: []string{"vw3"}, Outs: []string{"p"}},
+				{Op: "Flatten", Attrs: []Attr{aI("axis", 2)}, Ins: []string{"vw3"}, Outs: []string{"f"}},
+				{Op: "Reshape", Attrs: []Attr{}, Ins: []string{"vw3", "shp"}, Outs: []string{"rs"}},
+				{Op: "MatMul", Attrs: []Attr{}, Ins: []string{"x", "rs"}, Outs: []string{"z"}}},
+			Inputs: []mInput{dynInput("x", 48)}, Outputs: []string{"y", "p", "f", "z"},
+			Inits: []mInit{{"vw", fTensor(r, []int{48, 48}, -2, 2)}, {"vw3", fTensor(r, []int{8, 6, 48}, -2, 2)}, {"shp", itensor("i64", []int{48, 48})}}}},
 		{"two_dilated_convs", mModel{
 			Nodes: []mNode{
 				{Op: "Conv", Attrs: []Attr{aIs("dilations", []int{2, 2}), aIs("pads", []int{2, 2, 2, 2})}, Ins: []string{"x", "k1", "b1"}, Outs: []string{"t"}},
@@ -96,7 +124,8 @@ func synthModels(r *rand.Rand) []synthModel {
 func batchSynthModels(r *rand.Rand) []synthModel {
 	var out []synthModel
 	for _, m := range synthModels(r) {
-		if m.name != "raw_constant_add" { // 4096 values per row: too long a JSON line for the trace specification
+		// (rows of thousands of values are too long a JSON line for the trace specification; views of weights have no batch axis)
+		if m.name != "raw_constant_add" && m.name != "two_unnamed_constants" && m.name != "weight_views" {
 			out = append(out, m)
 		}
 	}
